@@ -40,3 +40,20 @@ def run(project, chk):      # noqa: F811  (borrowed rules first: an established 
     from checks._borrow import borrow
     borrow(project, chk, "C13", {"W1", "W2", "W5"}, "H6", "'after compositing any transparency': the text colour is composited over the pair's own background before it is judged and fixed, and the optimiser is handed the composite (C13's wiring rules)")
     _run_own(project, chk)
+    # H7: the size flag the pair is judged with is the flag it was given
+    chk.rule("H7", "ColorPair keeps large_text as given (or its truth value): 'already meets the minimum for the chosen large_text setting' is judged with the caller's setting")
+    import ast as _ast
+    from sa.wire import Origins as _Org, show as _show
+    from sa.resolve import own_nodes as _own
+    init = project.funcs.get("cm_colors.core.colors.ColorPair.__init__")
+    if init is not None:
+        o_ = _Org(project, init)
+        n_ = 0
+        for st in _own(init.node):
+            if isinstance(st, _ast.Assign) and any(isinstance(t, _ast.Attribute) and t.attr == "large" and isinstance(t.value, _ast.Name) and t.value.id == "self" for t in st.targets):
+                n_ += 1
+                v = o_.at(st.value)
+                okv = v == ("param", "large_text") or (v[0] == "call" and v[1] == "builtins.bool" and v[2] == (("param", "large_text"),))
+                chk.check(okv, "H7", init.short, "self.large = ...", project.loc(init.module, st), "self.large is the large_text argument (or bool of it)", how=f"origin: {_show(v)[:80]}",
+                          message=f"self.large is {_show(v)[:100]}, not the large_text the caller chose: e.g. large_text=True can be turned into False (True is an int), and the pair is then judged against the wrong minimum")
+        chk.floor("stores to self.large in ColorPair.__init__", n_, 1)
